@@ -7,7 +7,9 @@ import json, os, re
 HERE = os.path.dirname(os.path.dirname(os.path.abspath(__file__)))
 PROPS = os.path.join(HERE, "lean", "SPProofs", "Properties")
 DERIVE = [("SPProofs.Pipeline.DeriveSimple", "SPModel.Derive." + n, "full") for n in ("derivation_grid_seq", "grid_factor_function", "grid_factor_iff", "level_unique", "level_exists", "actual_mem", "mem_generate", "generate_ambiguous", "mem_product")]
+FILL = [("SPProofs.Misc.Fill", "SPModel.Fill." + n, "full") for n in ("windowKeyS_one", "windowKeyS_group", "fillEntry_not_applicable", "selectLevel_ok", "selectLevel_error", "fillEntry_matching")]
 EXTRA = {
+    "C04": FILL, "C05": FILL, "C06": FILL, "C07": FILL,
     "C24": [("SPProofs.Misc.C24Laws", "SPModel.C24." + n, "full") for n in (
                 "cross_eq_multiCross", "cross_multi_geo", "cross_multi_error", "repeat_nil_eq", "repeat_nil_geo",
                 "repeat_nil_error", "repeat_nil_eq_of_align", "repeat_nil_cross", "merge_singleton_eq",
@@ -24,7 +26,7 @@ EXTRA = {
             ("SPProofs.Pipeline.SeqBasic", "SPModel.Pipeline.exists_seq_of_consistency", "full"),
             ("SPProofs.Pipeline.SeqBasic", "SPModel.Pipeline.meaning_iff_seqMeaning", "full")],
     "C15": [("SPProofs.Misc.Implied", "SPModel.Implied.column_spec", "full"),
-            ("SPProofs.Misc.Implied", "SPModel.Implied.column_length", "full")] + DERIVE,
+            ("SPProofs.Misc.Implied", "SPModel.Implied.column_length", "full")] + DERIVE + FILL[-1:],
     # property -> [(module, theorem, status)]: theorems that live outside Properties/<id>.lean
     "C01": [("SPProofs.Pipeline.VarLists", "SPModel.Pipeline.variableLists_eq", "full"),
             ("SPProofs.Pipeline.VarLists", "SPModel.Pipeline.ranges_tile", "full"),
